@@ -75,6 +75,7 @@ class Runner(object):
         self.step = 0
         self.ro_sha = None
         self.ro_violations = []
+        self.infos = []
 
     def sha(self):
         import hashlib
@@ -192,6 +193,26 @@ class Runner(object):
         if t == "set_auto":
             self.f.auto_update_timestamps = op[1]
             return None
+        if t in ("probe", "probe_link"):
+            cont = getattr(self.obj(op[1]), CONT_ATTR[op[2]] if t == "probe" else LIST_ATTR[op[2]])
+            items = list(cont)
+            n = len(cont)
+            toks = [n] + [x.id for x in items]
+
+            def res(fn):
+                try:
+                    return [1, fn().id]
+                except Exception as exc:
+                    return [2, classify(exc, self.readonly)]
+            for z in range(-n - 1, n + 1):
+                toks += res(lambda: cont[z])
+            for x in items:
+                nm, i = x.name, x.id
+                if nm is None or i is None:
+                    toks.append(None)
+                else:
+                    toks += res(lambda: cont[nm]) + res(lambda: cont[i]) + [int(nm in cont), int(i in cont)]
+            return ("toks", toks)
         if t == "reopen":
             auto = self.f.auto_update_timestamps
             self.f.close()
@@ -212,19 +233,26 @@ class Runner(object):
         ids = self.digest.known_ids
         try:
             h = self.do(op)
-            if h is None:
+            probe_toks = None
+            if isinstance(h, tuple) and h[0] == "toks":
+                rt = [3] + h[1]
+                probe_toks = h[1]
+                h = None
+            elif h is None:
                 rt = [0]
             else:
                 i = self.handles[h][2]
                 if isinstance(i, str):
                     ids.add(i)
                 rt = [1, i]
-            res = ("ok", h)
+            res = ("ok", h) if probe_toks is None else ("toks", probe_toks)
         except Exception as exc:
             code = classify(exc, self.readonly)
             rt = [2, code]
             res = ("err", code, type(exc).__name__ + ": " + str(exc)[:80])
-        w = nixwalk.walk(self.f, self.with_times, ids)
+        w, info = nixwalk.walk_info(self.f, self.with_times, ids)
+        self.last_defined = info.pop("_defined_set")
+        self.infos.append(info)
         hr = self.digest.hash_stream(rt)
         hw = self.digest.hash_stream(w)
         self.trace.append((hr, hw))
@@ -254,6 +282,8 @@ class Gen(object):
         return [i for i, (k, o, _) in enumerate(self.r.handles) if k in kinds and i not in self.dead]
 
     def name(self):
+        if self.profile.get("small_names"):
+            return self.rnd.choice(["a", "b", "c", "d"])
         if self.profile.get("uuid_names") and self.rnd.random() < 0.1:
             return "0123456789abcdef0123456789abcdef"
         return self.rnd.choice(NAMES[:10])
@@ -285,7 +315,7 @@ class Gen(object):
             if op[1] not in self.dead:
                 return op
         w = dict(create=10, mtag=2, feature=2, lookup=3, lookup_link=1, delete=2, append=5, remove=2,
-                 set_link=3, set_attr=4, reopen=0.5, bad=1, set_auto=0.2)
+                 set_link=3, set_attr=4, reopen=0.5, bad=1, set_auto=0.2, probe=1, probe_link=0.5)
         w.update(self.profile.get("weights", {}))
         kinds = list(w)
         for _ in range(50):
@@ -339,6 +369,18 @@ class Gen(object):
             xs = self.live([want])
             if not xs:
                 return None
+            if rnd.random() < 0.3:
+                # adversarial: an entity of ANOTHER block whose name also exists in the owner's block
+                try:
+                    blk = self.r.obj(ph)._parent
+                    local = set(x.name for x in getattr(blk, {"DataArray": "data_arrays", "Tag": "tags",
+                                                             "MultiTag": "multi_tags", "Source": "sources"}[want]))
+                    foreign = [i for i in xs if getattr(self.r.obj(i), "_parent", None) is not blk
+                               and self.r.obj(i).name in local]
+                    if foreign:
+                        return ("append", ph, l, rnd.choice(foreign))
+                except Exception:
+                    pass
             return ("append", ph, l, rnd.choice(xs))
         if t in ("remove", "lookup_link"):
             owners = self.live(list(HAS_LIST))
@@ -407,6 +449,17 @@ class Gen(object):
             else:
                 v = rnd.choice(["some text", "éè", "", None, "x"])
             return ("set_attr", rnd.choice(hs), a, v)
+        if t == "probe":
+            parents = self.live(["File", "Block", "Source", "Section"])
+            ph = rnd.choice(parents)
+            c = rnd.choice([x for x in HAS_CONT[self.r.kind(ph)] if x != "CFeatures"])
+            return ("probe", ph, c)
+        if t == "probe_link":
+            owners = self.live(list(HAS_LIST))
+            if not owners:
+                return None
+            ph = rnd.choice(owners)
+            return ("probe_link", ph, rnd.choice(HAS_LIST[self.r.kind(ph)]))
         if t == "reopen":
             return ("reopen", bool(self.profile.get("readonly_reopen")) and rnd.random() < 0.5)
         if t == "set_auto":
@@ -465,11 +518,7 @@ class Gen(object):
 
     def refresh_dead(self):
         """handles whose entity is no longer in the walk are not used for new ops"""
-        idsnow = set()
-        for w in self.r.walks[-1:]:
-            for t in w:
-                if isinstance(t, str):
-                    idsnow.add(t)
+        idsnow = self.r.last_defined
         for i, (k, o, eid) in enumerate(self.r.handles):
             if k != "File" and eid not in idsnow:
                 self.dead.add(i)
@@ -495,7 +544,7 @@ def gen_history(seed, length, profile, workdir, with_times, k):
         os.remove(path)
     except OSError:
         pass
-    return {"ops": ops, "results": results, "trace": r.trace, "ro_violations": r.ro_violations,
+    return {"ops": ops, "results": results, "trace": r.trace, "ro_violations": r.ro_violations, "infos": r.infos,
             "walks": r.walks if profile.get("keep_walks") else None}
 
 
@@ -511,7 +560,8 @@ def replay_history(ops, workdir, with_times, k=0):
         os.remove(path)
     except OSError:
         pass
-    return {"ops": ops, "results": results, "trace": r.trace, "walks": r.walks, "ro_violations": r.ro_violations}
+    return {"ops": ops, "results": results, "trace": r.trace, "walks": r.walks, "ro_violations": r.ro_violations,
+            "infos": r.infos}
 
 
 def main():
